@@ -236,6 +236,57 @@ class Frame:
                     break
                 except _Continue:
                     pass
+        elif k == "do":
+            while True:
+                self.tick()
+                try:
+                    self.exec(n["body"])
+                except _Break:
+                    break
+                except _Continue:
+                    pass
+                if not truthy(self.eval(n["c"])):
+                    break
+        elif k == "switch":
+            v = self.eval(n["c"])
+            if isinstance(v, sp.Basic) and v.is_number:
+                v = int(v)
+            if not isinstance(v, int):
+                self.bad(i, "switch on a value that is not a known integer")
+            b = self.nodes[n["body"]]
+            stmts = [x for x in (b["body"] if b["k"] == "block" else [n["body"]]) if x is not None]
+            # labels: position in the statement list and the statement they wrap (case a: case b: stmt nests)
+            start = dflt = None
+            for pos_, st in enumerate(stmts):
+                j = st
+                while self.nodes[j]["k"] in ("case", "default"):
+                    lab = self.nodes[j]
+                    if lab["k"] == "default":
+                        dflt = pos_ if dflt is None else dflt
+                    else:
+                        cv = self.eval(lab["v"])
+                        if isinstance(cv, sp.Basic) and cv.is_number:
+                            cv = int(cv)
+                        if cv == v and start is None:
+                            start = pos_
+                    j = lab["sub"]
+                    if j is None:
+                        break
+            if start is None:
+                start = dflt
+            if start is not None:
+                try:
+                    for st in stmts[start:]:
+                        j = st
+                        while j is not None and self.nodes[j]["k"] in ("case", "default"):
+                            j = self.nodes[j]["sub"]
+                        if j is not None:
+                            self.exec(j)
+                except _Break:
+                    pass
+        elif k in ("case", "default"):
+            if n.get("sub") is not None:
+                self.exec(n["sub"])
         elif k == "break":
             raise _Break()
         elif k == "continue":
@@ -596,8 +647,17 @@ class Frame:
                     return ListIter(obj, len(obj))
                 if short == "empty" and not args:
                     return len(obj) == 0
-                if short == "push_back" and len(args) == 1:
+                if short in ("push_back", "push") and len(args) == 1:
                     obj.append(self.eval(args[0]))
+                    return None
+                if short in ("top", "back") and not args:       # (a std::stack is modelled as the list of its elements, top last)
+                    if not obj:
+                        raise Thrown("top()/back() of an empty sequence", self.fn.loc(i))
+                    return obj[-1]
+                if short in ("pop", "pop_back") and not args:
+                    if not obj:
+                        raise Thrown("pop of an empty sequence", self.fn.loc(i))
+                    obj.pop()
                     return None
                 self.bad(i, "vector method " + short)
             if isinstance(obj, dict):
@@ -608,6 +668,11 @@ class Frame:
                     return MapIter(obj, None)
                 if short == "count" and len(args) == 1:
                     return 1 if self.eval(args[0]) in obj else 0
+                if short == "at" and len(args) == 1:
+                    key = self.eval(args[0])
+                    if key not in obj:
+                        raise Thrown("std::out_of_range (map::at)", self.fn.loc(i))
+                    return obj[key]
                 if short in ("insert", "emplace") and len(args) == 1:
                     pr = self.eval(args[0])
                     if not (isinstance(pr, Obj) and pr.cls == "pair"):
